@@ -40,6 +40,7 @@ REQUIRED_LABELS = {t: ["iteration:valid", "iteration:invalid", "hash:invalid", "
                        "authorized", "never-authorized", "device-error", "sigs>=2",
                        "signapp:key", "signapp:manual", "signapp:eth", "iter:65535", "iter:0",
                        "duplicate-signature", "malformed-file", "via:program",
+                       "signapp:eth-bad-signature-refused",
                        "signapp:other-iteration-on-existing-file|signapp:other-iteration-refused"]
                    for t in ("quick", "thorough")}
 h32 = st.binary(min_size=32, max_size=32)
@@ -98,7 +99,9 @@ def cases(draw, tier):
             "app": draw(st.binary(min_size=1, max_size=400)),
             "pin": "abcd1234",
             # authorize_signer through adm_ledger.py with a command line
-            "program": draw(st.integers(0, 3)) == 0}
+            "program": draw(st.integers(0, 3)) == 0,
+            # the Ethereum app answers signapp with a signature that does not verify
+            "eth_bad": draw(st.integers(0, 3)) == 0}
 
 
 _TMP = {}
@@ -302,6 +305,9 @@ def run_case(c):
                 eth_seen["text"] = text
                 dg = refs.keccak256(b"\x19Ethereum Signed Message:\n" + str(len(text)).encode() +
                                     text)
+                if c.get("eth_bad"):
+                    # an app that signs something else (another text, another key's view)
+                    dg = refs.keccak256(dg)
                 sig = eth_sk.sign_digest(dg, sigencode=ecdsa.util.sigencode_string)
                 return bytearray(b"\x1b" + sig)
             raise deth.CommException("Invalid status 6d00", 0x6D00)
@@ -313,6 +319,25 @@ def run_case(c):
                                        eth_out, "-p", "m/44'/60'/0'/0/%d" % (n % 5)])
     finally:
         deth.getDongle = saved_gd
+    if c.get("eth_bad"):
+        # whatever the tool does with a signature that does not verify, it does not keep it
+        if os.path.exists(eth_out):
+            kept = json.load(open(eth_out)).get("signatures", [])
+            if kept:
+                raise Violation("signapp-eth-kept-bad-signature", "exit %r, file holds %r" % (
+                    code, kept[:2]))
+        if code == 0:
+            raise Violation("signapp-eth-bad-signature-success", out[-300:])
+        labels.append("signapp:eth-bad-signature-refused")
+        code, out = 0, ""
+        eth_seen.clear()
+        c = dict(c, eth_bad=False)
+        deth.getDongle = lambda debug: EthApp()
+        try:
+            code, out = run_main(signapp, ["signapp.py", "eth", "-a", app_path, "-i", str(n),
+                                           "-o", eth_out, "-p", "m/44'/60'/0'/0/%d" % (n % 5)])
+        finally:
+            deth.getDongle = saved_gd
     if code != 0:
         raise Violation("signapp-eth-failed", "exit %r: %s" % (code, out[-300:]))
     doc = json.load(open(eth_out))
@@ -379,6 +404,8 @@ def run_case(c):
     try:
         with contextlib.redirect_stdout(buf):
             fn(opts)
+    except HarnessError:
+        raise
     except Exception as e:   # noqa
         exc = e
     mw.check_sim(w)
